@@ -92,6 +92,8 @@ func main() {
 		total += genCrowd(out, rng, cnt(3, 40))
 		total += genBigQueue(out, rng, cnt(8, 60))
 		total += genQueueRing(out, rng, "battle", cnt(60, 1500))
+	case "soak": // not part of any tier: 2.6 million cycles with a 1.5-million-entry queue (see DESIGN.md section 9)
+		total += genSoak(out, rng)
 	case "bigstep":
 		total += genBigStep(out, rng, cnt(15, 300))
 		total += genBigMul(out, rng, cnt(120, 6000))
